@@ -474,6 +474,11 @@ htp_status_t htp_connp_RES_BODY_CHUNKED_LENGTH(htp_connp_t *connp) {
                 // End of data
                 connp->out_state = htp_connp_RES_HEADERS;
                 connp->out_tx->response_progress = HTP_RESPONSE_TRAILER;
+                // Tells decompressors to output partially decompressed data now, as
+                // is done at the end of a body of known length, so that the last
+                // body data does not arrive after the trailer callbacks
+                htp_status_t rc = htp_tx_res_process_body_data_ex(connp->out_tx, NULL, 0);
+                if (rc != HTP_OK) return rc;
             }
 
             return HTP_OK;
